@@ -20,6 +20,51 @@ ASSUMPTIONS = ["rustc's MIR (opt-level 0) faithfully represents the compiled cra
 LE = "live_events::LiveEvents"
 
 
+def rule_record(ctx, fx, config, prop="C02"):
+    """RECORD: every event the pump delivers — parser event or replayed one — was recorded into the open anchor frames first."""
+    PROP = prop
+    ni = fx.fn(LE + "::next_impl")
+    ctx.saw(ni)
+    # ---- RECORD: every delivered event is recorded
+    recs = [b for b, t in ni.calls() if fx.callee(t) == LE + "::record"]
+    bstart = [b for b, t in ni.calls() if fx.callee(t) == LE + "::bump_depth_on_start"]
+    bend = [b for b, t in ni.calls() if fx.callee(t) == LE + "::bump_depth_on_end"]
+    delivered = []
+    for b, i, adt, var, fl, ops, s_ in aggregates(ni):
+        if s_["p"]["l"] == 0 and adt.endswith("result::Result") and var == "Ok":
+            with ni.deep():
+                v = ni.sym_operand(s_["rv"]["ops"][0])
+            if v[0] == "aggr" and v[2] == "Some":
+                delivered.append((b, v[4][0], s_.get("ln")))
+    ctx.floor("RECORD.deliveries", len(delivered), 8, config)
+    k = 0
+    synthetic = 0
+    for b, ev, ln in delivered:
+        k += 1
+        kind = ev[2] if ev[0] == "aggr" else "replayed"
+        dom_rec = [rb for rb in recs if ni.dominates(rb, b)]
+        key = PROP + ":RECORD:delivery#%d:%s" % (k, kind)
+        if not dom_rec:
+            # the synthetic empty-document scalar: control-dependent on !produced_any_in_doc
+            syn = any(render(sym) == "self.produced_any_in_doc" and ni.dominates(ff, b) and tt != ff for _sb, sym, tt, ff in bool_switches(ni))
+            if syn and kind == "Scalar":
+                synthetic += 1
+                ctx.ok("RECORD", key, "synthetic empty-document scalar (no anchors can be open)", config, ctx.where(ni, ln=ln))
+            else:
+                ctx.bad("RECORD", PROP + ":RECORD:unrecorded:%s" % kind, "an event of kind %s is delivered (line %s) without being recorded into the open anchor frames: an enclosing anchored node replays without it" % (kind, ln), config, ctx.where(ni, ln=ln))
+            continue
+        ctx.ok("RECORD", key, "delivered event is recorded first", config, ctx.where(ni, ln=ln))
+        if kind in ("SeqStart", "MapStart"):
+            okb = any(ni.dominates(sb, rb) for sb in bstart for rb in dom_rec)
+            ctx.check(okb, "RECORD", PROP + ":RECORD:%s:depth-before-record" % kind, "open frames go one level deeper before the start event is recorded",
+                      "container start is recorded without bumping the recording depth of the open frames", config, ctx.where(ni, ln=ln))
+        if kind in ("SeqEnd", "MapEnd"):
+            okb = any(ni.dominates(rb, eb) and ni.dominates(eb, b) for eb in bend for rb in dom_rec)
+            ctx.check(okb, "RECORD", PROP + ":RECORD:%s:record-before-close" % kind, "the end event is recorded before frames are closed and stored",
+                      "container end is not recorded before bump_depth_on_end (the stored buffer would lack its end event)", config, ctx.where(ni, ln=ln))
+    ctx.check(synthetic <= 1, "RECORD", PROP + ":RECORD:single-synthetic", "at most one unrecorded (synthetic) delivery", "%d unrecorded deliveries" % synthetic, config, ctx.where(ni))
+
+
 def run(ctx):
     for config in ctx.configs:
         fx = ctx.facts(config)
@@ -47,6 +92,23 @@ def run(ctx):
                 exists_true.append((b, t_, f_))
             if r.startswith("any(") and "self.rec_stack" in r:
                 recording_false.append((b, t_, f_))
+        # the same test written as `let Some(buf) = self.anchors.get(id).and_then(..) else { return Err(unknown anchor) }`: a switch
+        # on the discriminant of an Option obtained from `self.anchors`, whose None arm leads to the unknown-anchor error
+        unk = [ub for ub, ut in ni.calls() if fx.callee(ut).endswith("Error::unknown_anchor")]
+        for b in sorted(ni.live_blocks):
+            t = ni.blocks[b]["term"]
+            if t["k"] != "switch":
+                continue
+            with ni.deep():
+                d = ni.sym_operand(t["o"])
+            if d[0] == "discr" and "self.anchors" in render(d) and ("and_then" in render(d) or "get(" in render(d)):
+                arms = dict(zip(t["vals"], t["tgts"]))
+                some_t = arms.get(1)
+                none_t = arms.get(0, t["tgts"][-1])
+                if some_t is None:
+                    some_t, none_t = t["tgts"][-1], arms.get(0)
+                if some_t is not None and none_t is not None and some_t != none_t and unk and must_pass(ni, [none_t], unk):
+                    exists_true.append((b, some_t, none_t))
         ctx.floor("DOM.exists-check", len(exists_true), 1, config)
         ctx.floor("DOM.recording-check", len(recording_false), 1, config)
         for pb in pushes:
@@ -81,44 +143,10 @@ def run(ctx):
                 okcl = g is not None and any(fx.callee(t) == "de_error::Error::unknown_anchor" for _b, t in g.calls())
         ctx.check(okcl, "DOM", "C02:DOM:replay-lookup-failure", "a replay frame whose buffer vanished yields the unknown-anchor error",
                   "the replay loop no longer turns a missing buffer into the unknown-anchor error", config, ctx.where(ni))
-        # ---- RECORD: every delivered event is recorded
+        rule_record(ctx, fx, config)
         recs = [b for b, t in ni.calls() if fx.callee(t) == LE + "::record"]
         bstart = [b for b, t in ni.calls() if fx.callee(t) == LE + "::bump_depth_on_start"]
         bend = [b for b, t in ni.calls() if fx.callee(t) == LE + "::bump_depth_on_end"]
-        delivered = []
-        for b, i, adt, var, fl, ops, s_ in aggregates(ni):
-            if s_["p"]["l"] == 0 and adt.endswith("result::Result") and var == "Ok":
-                with ni.deep():
-                    v = ni.sym_operand(s_["rv"]["ops"][0])
-                if v[0] == "aggr" and v[2] == "Some":
-                    delivered.append((b, v[4][0], s_.get("ln")))
-        ctx.floor("RECORD.deliveries", len(delivered), 8, config)
-        k = 0
-        synthetic = 0
-        for b, ev, ln in delivered:
-            k += 1
-            kind = ev[2] if ev[0] == "aggr" else "replayed"
-            dom_rec = [rb for rb in recs if ni.dominates(rb, b)]
-            key = "C02:RECORD:delivery#%d:%s" % (k, kind)
-            if not dom_rec:
-                # the synthetic empty-document scalar: control-dependent on !produced_any_in_doc
-                syn = any(render(sym) == "self.produced_any_in_doc" and ni.dominates(ff, b) and tt != ff for _sb, sym, tt, ff in bool_switches(ni))
-                if syn and kind == "Scalar":
-                    synthetic += 1
-                    ctx.ok("RECORD", key, "synthetic empty-document scalar (no anchors can be open)", config, ctx.where(ni, ln=ln))
-                else:
-                    ctx.bad("RECORD", "C02:RECORD:unrecorded:%s" % kind, "an event of kind %s is delivered (line %s) without being recorded into the open anchor frames: an enclosing anchored node replays without it" % (kind, ln), config, ctx.where(ni, ln=ln))
-                continue
-            ctx.ok("RECORD", key, "delivered event is recorded first", config, ctx.where(ni, ln=ln))
-            if kind in ("SeqStart", "MapStart"):
-                okb = any(ni.dominates(sb, rb) for sb in bstart for rb in dom_rec)
-                ctx.check(okb, "RECORD", "C02:RECORD:%s:depth-before-record" % kind, "open frames go one level deeper before the start event is recorded",
-                          "container start is recorded without bumping the recording depth of the open frames", config, ctx.where(ni, ln=ln))
-            if kind in ("SeqEnd", "MapEnd"):
-                okb = any(ni.dominates(rb, eb) and ni.dominates(eb, b) for eb in bend for rb in dom_rec)
-                ctx.check(okb, "RECORD", "C02:RECORD:%s:record-before-close" % kind, "the end event is recorded before frames are closed and stored",
-                          "container end is not recorded before bump_depth_on_end (the stored buffer would lack its end event)", config, ctx.where(ni, ln=ln))
-        ctx.check(synthetic <= 1, "RECORD", "C02:RECORD:single-synthetic", "at most one unrecorded (synthetic) delivery", "%d unrecorded deliveries" % synthetic, config, ctx.where(ni))
         # ---- RECORD:seed — the protocol between an anchored container start and record(.., seeded_new_frame):
         # record(ev, true, seeded) with seeded == (anchor != 0) skips the LAST frame because that frame was just pushed and
         # already holds the start event.  So on the anchor != 0 edge the push precedes the call, the pushed frame is seeded
